@@ -45,7 +45,7 @@ func TestVerifC01Mem(t *testing.T) {
 	rec := verifkit.NewRecorder("C01", "mem")
 	defer rec.Flush()
 	rapid.Check(t, func(rt *rapid.T) {
-		x := genCase(rt, verifnet.GenOpts{UnusualNames: true}, true, 3)
+		x := genCase(rt, verifnet.GenOpts{UnusualNames: true, DotDotNames: true, InvalidUTF8: true}, true, 3)
 		dir := caseDir("c01")
 		defer os.RemoveAll(dir)
 		p, err := prepare(x, dir)
@@ -71,6 +71,14 @@ func TestVerifC01Mem(t *testing.T) {
 		}
 		if x.Conns > 1 {
 			rec.Class("multi-conn")
+		}
+		if dd, bad := nameClass(x.Tree); dd || bad {
+			if dd {
+				rec.Class("name-contains-dotdot")
+			}
+			if bad {
+				rec.Class("name-not-valid-utf8")
+			}
 		}
 		if !res.BothOK() {
 			// C01 says nothing when a side reports failure (C03 owns completion)
@@ -107,9 +115,8 @@ func TestVerifC01Mem(t *testing.T) {
 	})
 }
 
-// TestVerifC01KnownNames re-confirms on every run the one known way in which a
-// successful transfer delivers a different tree (names that are not valid UTF-8), which
-// the random generator of TestVerifC01Mem excludes by construction.
+// TestVerifC01KnownNames is the regression case of a repaired finding: names that are not
+// valid UTF-8 were altered by the JSON manifest while both sides reported success.
 func TestVerifC01KnownNames(t *testing.T) {
 	rec := verifkit.NewRecorder("C01", "known-names")
 	defer rec.Flush()
